@@ -95,6 +95,12 @@ func C11(r *h.Run) {
 					}
 					reqH, resH, resT := genMeta(rng, "X-Req"), genMeta(rng, "X-Res"), genMeta(rng, "X-Trl")
 					errMeta := genMeta(rng, "X-Err")
+					if rng.Intn(3) == 0 {
+						// one key used for a header, a trailer and the error's metadata at once
+						resH.Add("X-Shared", "from-header")
+						resT.Add("X-Shared", "from-trailer")
+						errMeta.Add("X-Shared", "from-error")
+					}
 					var copts []connect.ClientOption
 					switch proto {
 					case "grpc":
@@ -122,6 +128,11 @@ func C11(r *h.Run) {
 					case "error-after":
 						retErr = mkError(connect.CodeAborted, "stop", 0, errMeta)
 					}
+					wrapped := retErr != nil && rng.Intn(3) == 0
+					if wrapped {
+						// the coded error is not the outermost one: errors.As finds it all the same
+						retErr = fmt.Errorf("handler: %w", retErr)
+					}
 					if (kind == "unary" || kind == "client") && retErr == nil {
 						resMsgs = [][]byte{{1}}
 					}
@@ -131,7 +142,7 @@ func C11(r *h.Run) {
 						send = [][]byte{{1}}
 					}
 					res := runE2E(bytesValueKind, kind, via, copts, nil, [][]byte{{9}}, send, retErr, 0, ex)
-					in := map[string]any{"proto": proto, "kind": kind, "outcome": outcome, "via": via, "request_header": reqH, "response_header": resH, "response_trailer": resT, "error_meta": errMeta}
+					in := map[string]any{"proto": proto, "kind": kind, "outcome": outcome, "via": via, "request_header": reqH, "response_header": resH, "response_trailer": resT, "error_meta": errMeta, "error_wrapped_in_plain_error": wrapped}
 					r.Eval("e2e_metadata", fmt.Sprint(n))
 					if res.Panic != nil {
 						r.Fail(h.Failure{Key: "metadata/panic-or-hang", Family: "e2e_metadata", What: fmt.Sprint(res.Panic), Input: in})
@@ -166,8 +177,9 @@ func C11(r *h.Run) {
 						checkSub("e2e_metadata", "error-metadata", in, errMeta, ce.Meta())
 						if kind == "server" || kind == "bidi" {
 							// streaming handlers set headers/trailers on the stream before failing
-							checkSub("e2e_metadata", "error-metadata(header)", in, resH, ce.Meta(), res.ResHeader)
-							checkSub("e2e_metadata", "error-metadata(trailer)", in, resT, ce.Meta(), res.ResTrailer)
+							// ("on failure at least in the error's metadata")
+							checkSub("e2e_metadata", "error-metadata(header)", in, resH, ce.Meta())
+							checkSub("e2e_metadata", "error-metadata(trailer)", in, resT, ce.Meta())
 						}
 					}
 				}
